@@ -91,7 +91,7 @@ for name,pr in [("9fail-1rec",{"j":9,"r2":1}),("1rec-9fail",{"r1":1,"j":9}),("9f
         d=dict(pr); d["pattern"]=pat
         c08.append(job(f"mixed-{name}-{pn}",".","VH_ClientRetry",["C08/"],d,Q if pat==0 else T,bounds=f"unsolicited records (symbolic type/payload) and runs of <=9 transient failures ({pn}) before the ACK with symbolic errno: {name}"))
 c08.append(job("send-fails",".","VH_ClientSendFail",["C08/"],{},Q,expect=["C08/send-failed"],bounds="each of the 12 command methods with the 1st, 2nd or 3rd Send of the call failing (ENOBUFS, nothing reaches the kernel): an error is returned and no data"))
-c08.append(job("receive-fails-hard",".","VH_ClientSendFail",["C08/"],{"recvfail":1},Q,expect=["C08/receive-failed"],bounds="each of the 12 command methods with the 1st, 2nd or 3rd Receive failing with ENOBUFS/EBADF: an error is returned"))
+c08.append(job("receive-fails-hard",".","VH_ClientSendFail",["C08/"],{"recvfail":1},Q,expect=["C08/receive-failed"],bounds="each of the 12 command methods with the 1st, 2nd or 3rd Receive failing with ENOBUFS/EBADF (outside the property's EINTR/EAGAIN clause): no panic, and nil is returned only if the kernel acknowledged every request with 0"))
 C["C08"]={"jobs":c08,"assumptions":CLIENT_ASSUME,"outside":["the real kernel and socket","more than 2 unsolicited records per wait","Receive returning several messages at once","rule payloads longer than 3-4 bytes (content is only copied)"]}
 C["C16"]={"jobs":[job("setters",".","VH_ClientSetters",["C16/"],{},Q,bounds="7 setters x both wait modes with full-range symbolic arguments (uint32/int32/bool/FailureMode), GetStatus request"),
    job("setters-recv-error",".","VH_ClientSetters",["C16/"],{"recvfail":1},Q,bounds="as setters, with the 1st or 2nd Receive of the call failing with ENOBUFS/EBADF/ECONNREFUSED: still exactly one well-formed request"),
@@ -101,7 +101,7 @@ C["C16"]={"jobs":[job("setters",".","VH_ClientSetters",["C16/"],{},Q,bounds="7 s
    "assumptions":CLIENT_ASSUME+["UAPI constants transcribed from /usr/include/linux/audit.h of this image (see harness constants vUAPI_*)"],"outside":["the live kernel"]}
 C["C17"]={"jobs":[job("history-k3",".","VH_ClientHistory",["C17/"],{"k":3},QO,bounds="histories of 3 operations from {setter NoWait, SetPID NoWait, setter WaitForReply, WaitForPendingACKs, GetRules, Close}, kernel errno per request symbolic"),
    job("history-k4",".","VH_ClientHistory",["C17/"],{"k":4},Q,bounds="histories of 4 operations"),
-   job("history-k3-sendfail",".","VH_ClientHistory",["C17/"],{"k":3,"sendfail":1},Q,bounds="histories of 3 operations in which a NoWait setter's Send may fail: the failure is reported and no ACK is awaited for it"),
+   job("history-k3-sendfail",".","VH_ClientHistory",["C17/"],{"k":3,"sendfail":1},Q,bounds="histories of 3 operations in which a NoWait setter's Send may fail, or the clear-PID Send inside Close: no ACK is awaited for it, the socket is closed all the same"),
    job("history-k4-sendfail",".","VH_ClientHistory",["C17/"],{"k":4,"sendfail":1},T,bounds="histories of 4 operations with failing NoWait Sends"),job("history-k5",".","VH_ClientHistory",["C17/"],{"k":5},T,bounds="histories of 5 operations"),
    job("close-2threads",".","VH_ClientCloseConcurrent",["C17/"],{"threads":2,"preemptions":3},Q,no_native=True,bounds="Close from 2 goroutines at once (with and without a prior SetPID), every interleaving at synchronisation operations with at most 3 preemptions, race detection"),
    job("close-3threads",".","VH_ClientCloseConcurrent",["C17/"],{"threads":3,"preemptions":2},T,no_native=True,bounds="Close from 3 goroutines, at most 2 preemptions")],
